@@ -58,6 +58,7 @@ def cfg(tier):
         max_ops=8 if tier == "quick" else 12,
         p_binary=0.18,
         avoid=frozenset(["D9", "D10", "D11"]),
+        p_cfun=12,
     )
 
 
